@@ -55,6 +55,11 @@ def cases():
             a = [fill] * 4; a[pos] = v; cs.append(('tm.stokes %s' % ' '.join(a), 'stokes-' + k)); cs.append(('tm.mat22 %s' % ' '.join(a), 'matrix-' + k)); cs.append(('tm.vecvec %s' % ' '.join(a), 'vector-of-vectors-' + k))
         for pos in range(6):
             a = [fill] * 6; a[pos] = v; cs.append(('tm.mat23 %s' % ' '.join(a), 'matrix-' + k))
+        for pos in range(4):
+            for bg in (fill, D['+0']):
+                a = [bg] * 4; a[pos] = v; cs.append(('tm.cvec %s' % ' '.join(a), 'vector-of-complex-' + k))
+        for pos in range(8):
+            a = [fill] * 8; a[pos] = v; cs.append(('tm.cstokes %s' % ' '.join(a), 'stokes-of-complex-' + k))
         cs.append(('tm.est %s %s' % (v, fill), 'estimate-value-' + k))
         cs.append(('tm.est %s %s' % (fill, v), 'estimate-variance-' + k))
     for k, v in F.items():
@@ -62,8 +67,12 @@ def cases():
             a = [F['one'], F['one']]; a[pos] = v; cs.append(('tm.cxf %s' % ' '.join(a), 'complex-float-' + k))
         for pos in range(4):
             a = [F['one']] * 4; a[pos] = v; cs.append(('tm.stokesf %s' % ' '.join(a), 'stokes-float-' + k))
+        for pos in range(4):
+            a = [F['one']] * 4; a[pos] = v; cs.append(('tm.cvecf %s' % ' '.join(a), 'vector-of-complex-float-' + k))
         cs.append(('tm.estf %s %s' % (v, F['one']), 'estimate-float-' + k))
     for k, v in LD.items():
+        for pos in range(4):
+            a = [LD['one']] * 4; a[pos] = v; cs.append(('tm.cvecld %s' % ' '.join(a), 'vector-of-complex-longdouble-' + k))
         cs.append(('tm.estld %s %s' % (v, LD['one']), 'estimate-longdouble-' + k))
     # literals written at the call site (index of the literal for the harness, its bit pattern for the model)
     KD = ['qnan', '+inf', '-inf', '+0', '-0', 'one', '-one', 'max', '-max', 'denormal', 'neg-qnan']
